@@ -153,8 +153,9 @@ PROPS["C07"] = dict(
 
 # recursion bounds for the logger tree (children live on the heap, where the symbolic executor
 # does not propagate constants: without a bound per function the phantom levels multiply)
-def TREE_REC(depth):
-    return [(r"^log4rs::ConfiguredLogger::add$", None, depth + 1),
+def TREE_REC(depth, add=None):
+    # `add`: exact number of nested add() frames of the instance (a name of k components inserted below the root: k frames)
+    return [(r"^log4rs::ConfiguredLogger::add$", None, add if add is not None else depth + 1),
             (r"^log4rs::ConfiguredLogger::max_log_level$", None, depth + 1),
             # dropping a tree (the old configuration after a swap) recurses like the tree itself
             (r"^std::ptr::drop_glue::<log4rs::ConfiguredLogger>$", None, depth + 1),
@@ -175,14 +176,9 @@ _tree_harnesses = [
     H("c01_tree::tree_sib", instance="declared: a::b, a::bc(non-additive): textual-not-component prefix", symbolic=_tree_sym, bound="unwind 9", unwindset=TREE_REC(2), **_tree),
     H("c01_tree::tree_ab_na", instance="declared: a::b(non-additive); root 2 att (implied intermediate created for a non-additive logger)", symbolic=_tree_sym, bound="unwind 9", unwindset=TREE_REC(2), **_tree),
     H("c01_tree::tree_a_ab_na", tier="thorough", instance="declared: a, a::b(non-additive)", symbolic=_tree_sym, bound="unwind 9", unwindset=TREE_REC(2), **_tree),
-    H("c01_tree::tree_a_abc", tier="thorough", instance="declared: a, a::b::c (implied a::b below a declared a)", symbolic=_tree_sym, bound="unwind 9", unwindset=TREE_REC(3), **_tree),
-    H("c01_tree::tree_ana_abc", tier="thorough", instance="declared: a(non-additive), a::b::c (0 att)", symbolic=_tree_sym, bound="unwind 9", unwindset=TREE_REC(3), **_tree),
     H("c01_tree::tree_lead", tier="thorough", instance="declared: ::a (empty first component); " + _T_CHAIN, symbolic=_tree_sym, bound="unwind 9", unwindset=TREE_REC(2), **_tree),
     H("c01_tree::tree_a_ba", tier="thorough", instance="declared: a, b::a; root 0 att; " + _T_CHAIN, symbolic=_tree_sym, bound="unwind 9", unwindset=TREE_REC(2), **_tree),
     H("c01_tree::tree_a_chain_targets", tier="thorough", instance="declared: a; " + _T_CHAIN, symbolic=_tree_sym, bound="unwind 11", unwindset=TREE_REC(1), **_tree),
-    H("c01_tree::tree_3chain", tier="thorough", instance="declared: a, a::b, a::b::c; " + _T_CHAIN, symbolic=_tree_sym, bound="unwind 11", unwindset=TREE_REC(3), timeout=3600, mem_gb=14),
-    H("c01_tree::tree_3chain_mid_na", tier="thorough", instance="declared: a, a::b(non-additive), a::b::c", symbolic=_tree_sym, bound="unwind 11", unwindset=TREE_REC(3), timeout=3600, mem_gb=14),
-    H("c01_tree::tree_3sib", tier="thorough", instance="declared: a::b, a::bc, a::b::c(non-additive, 2 att)", symbolic=_tree_sym, bound="unwind 11", unwindset=TREE_REC(3), timeout=3600, mem_gb=14),
 ]
 _tree_assumptions = [
     "hook Tree wraps the private ConfiguredLogger (no behaviour change); loggers are added in order of name length, as "
@@ -195,9 +191,9 @@ _tree_assumptions = [
 
 PROPS["C01"] = dict(
     functions=["log4rs::ConfiguredLogger::add", "log4rs::ConfiguredLogger::find", "log4rs::ConfiguredLogger::enabled"],
-    bounds="<= 3 declared loggers, depth <= 3, 3 appenders, <= 2 attachments per logger; tree shape, additive flags, number "
+    bounds="<= 2 declared loggers, depth <= 3 (an implied intermediate counts), 3 appenders, <= 2 attachments per logger; tree shape, additive flags, number "
            "of attachments and the target pool are enumerated instances; levels and attached appender ids are solver variables",
-    outside="free-text targets and names (pools only); more than 3 declared loggers; declaration-order independence of the "
+    outside="free-text targets and names (pools only); three or more declared loggers (tree_3chain, tree_3sib, tree_a_abc .. exhaust 10-14 GB within 2-3 min, also with exact recursion bounds; they stay in the harness crate and run natively); declaration-order independence of the "
             "constructor's sort (R3) and delivery through <Logger as Log>::log (fan-out unit: C03)",
     assumptions=_tree_assumptions,
     level_text="Bounded model checking of the real tree code (add/find) for a list of tree skeletons (chains, implied "
@@ -213,6 +209,7 @@ PROPS["C01"] = dict(
 )
 
 _max = dict(timeout=1500, mem_gb=10)
+_max14 = dict(timeout=1800, mem_gb=14)
 def SHAPE_REC(depth):
     return [(r"^log4rs::ConfiguredLogger::max_log_level$", None, depth),
             (r"^log4rs::verif_hooks::Tree::from_shape::build$", None, depth),
@@ -220,8 +217,8 @@ def SHAPE_REC(depth):
 PROPS["C02"] = dict(
     functions=["log4rs::ConfiguredLogger::max_log_level", "log4rs::ConfiguredLogger::find", "log4rs::ConfiguredLogger::enabled",
                "log4rs::ConfiguredLogger::add"],
-    bounds="enabled(): the instances of C01; max_log_level(): the root plus one declared logger, with or without an implied intermediate (a, a::b); all levels symbolic",
-    outside="max_log_level() on trees with two or more declared loggers (the second add descends into a heap-allocated child: > 12 GB, DESIGN.md 9.6) - a seeded pruning bug that needs a declared intermediate logger is therefore not caught; the history part (init_config / set_config installing log::set_max_level) is exercised by C15's harnesses; the log! macros are not",
+    bounds="enabled(): the instances of C01; max_log_level(): (i) trees built by the real add(): the root plus one declared logger, with or without an implied intermediate (a, a::b); (ii) trees assembled node by node (hook Tree::from_shape): chain of 3, fork, two-level fork, 6-node bush, every node declared; all levels symbolic",
+    outside="max_log_level() on add()-built trees with two or more declared loggers (the second add descends into a heap-allocated child: > 12 GB, DESIGN.md 9.6) - the shape-built family (ii) covers those shapes without the insertion path; chains of 4 and more (10 GB); the history part (init_config / set_config installing log::set_max_level) is exercised by C15's harnesses; the log! macros are not",
     assumptions=_tree_assumptions,
     level_text="Bounded model checking of the real tree code: for every instance and all level assignments enabled(target, level) "
                "equals 'level passes the effective logger's threshold' (reference on component lists) and max_log_level() equals "
@@ -233,17 +230,15 @@ PROPS["C02"] = dict(
         H("c01_tree::max_a_witness", kind="witness", unwindset=TREE_REC(1), **_max),
         H("c01_tree::max_ab", instance="root + a::b (implied a)", symbolic="all levels", bound="unwind 6, recursion 3", unwindset=TREE_REC(2), **_max),
         # max_log_level() on trees assembled node by node (Tree::from_shape): several declared loggers
-        H("c02_max::max_chain3", instance="root - a - a::b (all declared)", symbolic="3 levels", bound="unwind 8, recursion 3", unwindset=SHAPE_REC(3), **_max),
-        H("c02_max::max_chain3_witness", kind="witness", unwindset=SHAPE_REC(3), **_max),
-        H("c02_max::max_fork", instance="root - {a, b}", symbolic="3 levels", bound="unwind 8, recursion 2", unwindset=SHAPE_REC(2), **_max),
-        H("c02_max::max_chain4", tier="thorough", instance="root - a - a::b - a::b::c", symbolic="4 levels", bound="unwind 8, recursion 4", unwindset=SHAPE_REC(4), **_max),
-        H("c02_max::max_fork_deep", tier="thorough", instance="root - {a - a::c, b - b::d}", symbolic="5 levels", bound="unwind 8, recursion 3", unwindset=SHAPE_REC(3), **_max),
+        H("c02_max::max_chain3", instance="root - a - a::b (all declared)", symbolic="3 levels", bound="unwind 8, recursion 3", unwindset=SHAPE_REC(3), **_max14),
+        H("c02_max::max_chain3_witness", kind="witness", unwindset=SHAPE_REC(3), **_max14),
+        H("c02_max::max_fork", instance="root - {a, b}", symbolic="3 levels", bound="unwind 8, recursion 2", unwindset=SHAPE_REC(2), **_max14),
+        H("c02_max::max_fork_deep", tier="thorough", instance="root - {a - a::c, b - b::d}", symbolic="5 levels", bound="unwind 8, recursion 3", unwindset=SHAPE_REC(3), **_max14),
         H("c02_max::max_bush", tier="thorough", instance="root - {a - {a::c, a::d}, b - b::e}", symbolic="6 levels", bound="unwind 8, recursion 3", unwindset=SHAPE_REC(3), timeout=3600, mem_gb=14),
         # enabled() on the routing instances
         H("c01_tree::tree_a", instance="enabled() on declared: a; " + _T_SMALL, symbolic=_tree_sym, bound="unwind 9", unwindset=TREE_REC(1), **_tree),
         H("c01_tree::tree_a_ab", tier="thorough", instance="enabled() on declared: a, a::b", symbolic=_tree_sym, bound="unwind 9", unwindset=TREE_REC(2), **_tree),
         H("c01_tree::tree_sib", tier="thorough", instance="enabled() on declared: a::b, a::bc", symbolic=_tree_sym, bound="unwind 9", unwindset=TREE_REC(2), **_tree),
-        H("c01_tree::tree_3chain", tier="thorough", instance="enabled() on declared: a, a::b, a::b::c", symbolic=_tree_sym, bound="unwind 11", unwindset=TREE_REC(3), timeout=3600, mem_gb=14),
     ],
 )
 
@@ -391,10 +386,10 @@ _fs_assumptions = [
     "File::metadata, Metadata::len, <File as Write>::{write,flush}, the closing of descriptors, fs::{rename,create_dir_all}: a handle "
     "refers to an inode, so a writer that survives a rename keeps writing into the renamed file; writes are complete (no short writes)",
     "E3: parking_lot::Mutex is replaced by a std Mutex wrapper (mutual exclusion trusted)",
-    "E10: std::io::BufWriter<File>::{write, write_all, flush} are replaced by a model: written bytes are held back and reach the file, in order, exactly at flush (the real BufWriter did not fit: 20 min of symbolic execution and 9 GB for one append); one BufWriter alive at a time",
+    "std::io::BufWriter<File> is the real one (1 KiB buffer; every append of these instances fits it and is flushed by the appender)",
     "E9: the fallback PatternEncoder named by the builders is cut (harnesses install their own encoder); Backtrace::capture -> "
     "disabled; <anyhow::Error as Drop>::drop -> no-op; fault-free harnesses cut <anyhow::Error as From<io::Error>>::from",
-    "harness loops over the 24-byte model files get a per-loop bound of 26 (--unwindset), everything else the harness bound of 6",
+    "harness loops over the 24-byte model files get a per-loop bound of 26 (--unwindset), everything else the harness bound of 10",
 ]
 _a = dict(timeout=1800, mem_gb=12, unwindset=HARNESS_LOOPS + BT_LOOPS)
 
@@ -839,15 +834,6 @@ PROPS["C18"]["bounds"] += "; (c) an empty {h()} group at every record level"
 PROPS["C18"]["harnesses"].append(H("c09_units::one_highlight", instance="{h()}: exactly one style call before and one reset after for Error / Warn / Info / Trace, none for Debug", symbolic="record level", bound="unwind 8", **_u))
 
 
-# ---- temporary: measurement ----
-PARSE_REC = [(r"^<log4rs::encode::pattern::parser::Parser<'_> as std::iter::Iterator>::next$", None, 3),
-             (r"^log4rs::encode::pattern::parser::Parser::<'_>::(argument|formatter|args|arg)$", None, 3)]
-PARSE_REC += [(r"drop_glue::<\[log4rs::encode::pattern::parser::Piece<'_>\]>", 0, 3),
-              (r"drop_glue::<\[std::vec::Vec<log4rs::encode::pattern::parser::Piece<'_>>\]>", 0, 3),
-              (r"^std::ptr::drop_glue::<(log4rs::encode::pattern::parser::(Piece|Formatter)<'_>|std::vec::Vec<.*Piece<'_>>)>$", None, 2)]
-_pp = dict(timeout=1200, mem_gb=12, unwindset=PARSE_REC)
-PROPS["C11P"] = dict(PROPS["C11"])
-PROPS["C11P"]["harnesses"] = [H("c11_parse::parse_free3", **_pp), H("c11_parse::parse_free4", **_pp), H("c11_parse::parse_brace_free3", **_pp)]
 _vv = dict(timeout=900, mem_gb=8, unwindset=[(r"^c19_value::body$", "*", 70)])
 _c19 = [("simple3", "/a/$ENV{A}/b, A set, value of 3 bytes", "quick"), ("empty", "the same, empty value", "quick"), ("unset", "the same, A unset", "quick"),
         ("twice3", "$ENV{A}-$ENV{A}", "quick"), ("tricky_both_set", "x$$ENV{A}$ENV{B}y, both set, A's value of 6 bytes (can spell ENV{B} behind the '$')", "quick"),
@@ -875,3 +861,75 @@ PROPS["C19"] = dict(
               + [H("c19_value::value_simple3_witness", kind="witness", **_vv)],
 )
 NOT_APPLICABLE.pop("C19", None)
+_c04 = [("3_pre2", "one append of 3 bytes (one write_all) over 2 pre-existing bytes", "quick"),
+        ("2_0_1_pre0", "appends of 2, 0 and 1 bytes, two write_all calls per record where possible, no content before", "quick"),
+        ("0_pre0", "one empty record", "quick"),
+        ("4_4_pre3", "appends of 4 and 4 bytes in two chunks over 3 pre-existing bytes", "thorough"),
+        ("1_1_1_1_pre1", "four appends of 1 byte over 1 pre-existing byte", "thorough")]
+PROPS["C04"] = dict(
+    functions=["FileAppenderBuilder::build", "<FileAppender as Append>::append", "SimpleWriter", "std::io::BufWriter<File> (std, executed for real)"],
+    bounds="histories of 1-4 successive appends; the number of appends, every record's length (0-4 bytes), its split into one or two write_all "
+           "calls and the amount of pre-existing content (0-3 bytes) are instance parameters (so that every copy has a constant size, DESIGN.md "
+           "9.8 rule 23); solver variables: the open mode (append / truncate), existence of an empty file, every record's content byte; "
+           "content observed after every single append",
+    outside="record lengths as solver variables (measured: 20 min / 12 GB for one append, DESIGN.md 9.6); real thread parallelism - 'not "
+            "interleaved' is not decided (Kani has no threads; the writer is confined to the mutex, see assumptions); records larger than the "
+            "1 KiB buffer; short writes of the OS; write errors",
+    assumptions=_fs_assumptions,
+    level_text="Bounded model checking of the real file appender: for every instance, both open modes and all record contents, after every "
+               "append the model disk's bytes at the path equal (old content if append mode) ++ record_1 .. record_i exactly - so a dropped "
+               "flush, a swapped append/truncate flag or a flush before the encode shows as a byte mismatch.",
+    level_note="Trusted: Kani/CBMC/CaDiCaL and the environment models E3/E4. Record lengths and counts are enumerated instances. Interleavings are not explored.",
+    design_ref="DESIGN.md section 5 (C04) and 9.8",
+    harnesses=[H("c04_file::sized_%s" % k, tier=t, instance=txt, symbolic="open mode, existence, record content", bound="unwind 10", **_a) for k, txt, t in _c04]
+              + [H("c04_file::sized_3_pre2_witness", kind="witness", **_a)],
+)
+NOT_APPLICABLE.pop("C04", None)
+
+_c05 = [("sized_plan_post_2", "one append of 2 bytes over 1 pre-existing byte", "the roll decision, open mode", "quick"),
+        ("pfx_post_2x1_keep", "appends of 2 and 1 bytes over 1 pre-existing byte; first decision: keep", "the last roll decision, open mode", "quick"),
+        ("pfx_post_2x1_roll", "the same; first decision: roll", "the last roll decision, open mode", "quick"),
+        ("pfx_post_1x0x2_roll_keep", "appends of 1, 0 and 2 bytes over 2 pre-existing bytes; decisions roll, keep, then symbolic", "the last roll decision, open mode", "quick"),
+        ("pfx_post_1x0x2_keep_keep", "the same; decisions keep, keep, then symbolic", "the last roll decision, open mode", "thorough"),
+        ("pfx_post_2x2x2_roll_roll", "three appends of 2 bytes, no content before; decisions roll, roll, then symbolic", "the last roll decision, open mode", "thorough"),
+        ("pfx_post_3x0_roll", "appends of 3 and 0 bytes over 2 pre-existing bytes; first decision: roll", "the last roll decision, open mode", "thorough")]
+PROPS["C05"] = dict(
+    functions=["RollingFileAppenderBuilder::build", "<RollingFileAppender as Append>::append", "RollingFileAppender::get_writer",
+               "LogWriter::{write,flush}", "LogFile::{roll,len_estimate}", "std::io::BufWriter<File> (std, executed for real)",
+               "CompoundPolicy::{process,is_pre_process} (unit harness c06_triggers::compound_policy)"],
+    bounds="POST-processing policy only. Histories of 1-3 appends whose record lengths (0-3 bytes), pre-existing content (0-2 bytes) and all roll "
+           "decisions but the last are instance parameters (constant copy sizes and a concrete reachable appender state before the last append, "
+           "DESIGN.md 9.8 rule 23); solver variables: the last roll decision and the open mode; one archive name (the roller is abstract here: "
+           "rename to the archive; the real rollers are decided in C07). CompoundPolicy unit: every trigger answer / roller failure / pre flag",
+    outside="PRE-processing policies (roll before the write; two appends exhaust 12 GB, DESIGN.md 9.8), every roll decision symbolic at once (two "
+            "appends: 12 GB), record lengths as solver variables, a restart of the appender, compression, background rotation, real thread "
+            "parallelism, records larger than the 1 KiB buffer; composition with the real roller in one harness",
+    assumptions=_fs_assumptions + ["the harness Policy performs the roll by renaming the active file to the archive name after calling "
+                                   "the real LogFile::roll (the documented Roll contract), and compares LogFile::len_estimate() with the true size of the active file"],
+    level_text="Bounded model checking of the real rolling appender against a stream model: after every append the active file and the "
+               "archive must hold exactly the bytes the record stream prescribes (whole records, in write order, none twice, none missing), the "
+               "policy is consulted exactly once per append and is shown the true size - for both values of the last roll decision and "
+               "both open modes, from every appender state the instances' decision prefixes reach.",
+    level_note="Trusted: Kani/CBMC/CaDiCaL, E3/E4. Assume-guarantee split at the Roll trait: appender here, rollers in C07. Histories, lengths and all "
+               "decisions but the last are enumerated instances.",
+    design_ref="DESIGN.md section 5 (C05) and 9.8",
+    harnesses=[H("c05_rolling::%s" % k, tier=t, instance=txt, symbolic=sy, bound="unwind 10", **_a) for k, txt, sy, t in _c05]
+              + [H("c05_rolling::pfx_post_2x1_keep_witness", kind="witness", **_a),
+                 H("c06_triggers::compound_policy", instance="CompoundPolicy::process with harness trigger/roller", symbolic="trigger answer (no/yes/error), roller failure, pre flag", bound="unwind 6", timeout=900, mem_gb=8)],
+)
+NOT_APPLICABLE.pop("C05", None)
+
+# C06, appender half (post-processing, one append): the real SizeTrigger behind the harness policy sees the true size
+PROPS["C06"]["harnesses"] += [
+    H("c05_rolling::sized_size_2", instance="RollingFileAppender with the real SizeTrigger: one append of 2 bytes over 1 pre-existing byte", symbolic="limit 0..6, open mode", bound="unwind 10", **_a),
+    H("c05_rolling::sized_size_3_pre2", instance="the same: 3 bytes over 2 pre-existing bytes", symbolic="limit 0..6, open mode", bound="unwind 10", **_a),
+]
+PROPS["C06"]["functions"] += ["RollingFileAppender::{append,get_writer}, LogWriter, LogFile::{roll,len_estimate} with the real SizeTrigger behind the harness policy (one post-processing append)"]
+PROPS["C06"]["bounds"] += ("; appender half: one append of a record of instance-given length (2 or 3 bytes) over instance-given pre-existing content (1 or 2 bytes), "
+                           "limit 0..6 and the open mode symbolic: the size shown to the trigger equals the true on-disk size, the roll happens exactly when size > limit, "
+                           "and the files hold the record stream")
+PROPS["C06"]["outside"] = ("size accounting over histories of several appends with a symbolic limit (the roll decisions then become symbolic: two appends exhaust 12 GB, "
+                           "DESIGN.md 9.8) - C05's instances check the size shown to the policy along concrete decision prefixes; record lengths as solver variables; "
+                           "the real roller behind the real trigger in one harness (C07 decides the rollers)")
+PROPS["C06"]["assumptions"] += _fs_assumptions
+PROPS["C06"]["level_note"] = "Trusted: Kani/CBMC/CaDiCaL, E3/E4 for the appender instances."
